@@ -220,6 +220,24 @@ theorem C15_display_visible (o : DisplayOpts) (hd : o.display = true) (hp : 0 < 
         PrintEv.header :: ((List.range k).filter (fun n => cycleEnd o (n + 1))).map (fun n => PrintEv.row n true)) :=
   ⟨fun ho => visible_overwrite o hd ho hp k hk, fun ho => visible_plain o hd ho k hk⟩
 
+/-- **What remains visible after any number of `solve()` calls** (overwrite mode, ideal terminal):
+    call by call — the header before the first record ever printed, the records that end a display
+    cycle, the last record of each call (committed by `end()`), and one blank line for a call that
+    inserts nothing while the last record did not end a cycle (`callsLines`); the cursor is on a
+    fresh line after every call. -/
+theorem C15_display_visible_calls (o : DisplayOpts) (hd : o.display = true) (ho : o.overwrite = true)
+    (hp : 0 < o.period) (ks : List Nat) :
+    (Screen.mk [] none).run (dispCalls o ks (Disp.init o)).out = ⟨callsLines o 0 true ks, none⟩ := by
+  have := screen_calls_overwrite o hd ho hp ks (Disp.init o) [] rfl
+  simpa [Disp.init, hd] using this
+
+-- period 3 with shift: calls of 2, 0 and 3 iterations; records 0 and 3 end cycles, records 1 and 4 are the
+-- last ones of their calls, and the empty call leaves a blank line
+example :
+    let o : DisplayOpts := { display := true, period := 3, shiftCycles := true, overwrite := true }
+    ((Screen.mk [] none).run (dispCalls o [2, 0, 3] (Disp.init o)).out).lines =
+      [.header, .row 0, .row 1, .blank, .row 3, .row 4] := by decide
+
 -- non-vacuity: period 3 without shift, overwrite: 7 records; records 2 and 5 end a cycle, record 6 is
 -- committed by `end()`; everything else was overwritten
 example :
